@@ -322,6 +322,13 @@ class datetime(_dt, FieldType):
             obj = obj.replace(tzinfo=UTC)
         return obj
 
+    def replace(self, *args, **kwargs):
+        # datetime.replace() does not go through __new__, so replace(tzinfo=None) would yield a naive field value
+        obj = super().replace(*args, **kwargs)
+        if obj.tzinfo is None:
+            obj = _dt.replace(obj, tzinfo=UTC)
+        return obj
+
     def _pack(self):
         return self
 
